@@ -286,8 +286,8 @@ theorem separatorFalse_facts :
                  { id := 10, evaluated := true, emb := none, diags := [], panic := false })]] := by
   decide
 
-/-- the ownership statement is false without `NoSilentDrop`: `separator: false` as the sole binding of an action is
-    evaluated, not embedded, not generated and not diagnosed -/
+/-- the ownership statement is false without `NoSilentDrop` (finding F18): `separator: false` as the sole binding of
+    an action is evaluated, not embedded, not generated and not diagnosed -/
 theorem ownership_full_refuted : ¬ ownership_full_statement := by
   intro h
   have h' := h separatorFalseDoc ⟨[], [], [], []⟩ (by decide) (by decide)
